@@ -196,15 +196,19 @@ pub fn uri_oracle(spans: &[String]) -> String {
     for s in spans {
         match UriStr::new(s) {
             Err(_) => items.push(format!("{}:!", crate::util::hexs(s))),
-            Ok(u) => items.push(format!(
-                "{}:{}/{}/{}/{}/{}",
-                crate::util::hexs(s),
-                crate::util::hexs(u.scheme_str()),
-                opt(u.authority_str()),
-                crate::util::hexs(u.path_str()),
-                opt(u.query_str()),
-                opt(u.fragment().map(|f| f.as_str()))
-            )),
+            Ok(u) => {
+                let qun = u.query_str().and_then(|q| quick_xml::escape::unescape(q).ok().map(|c| c.to_string()));
+                items.push(format!(
+                    "{}:{}/{}/{}/{}/{}/{}",
+                    crate::util::hexs(s),
+                    crate::util::hexs(u.scheme_str()),
+                    opt(u.authority_str()),
+                    crate::util::hexs(u.path_str()),
+                    opt(u.query_str()),
+                    opt(u.fragment().map(|f| f.as_str())),
+                    opt(qun.as_deref())
+                ))
+            }
         }
     }
     if items.is_empty() {
